@@ -174,7 +174,15 @@ def record(args):
         Xin = X.astype(np.int64) if np.all(X == np.round(X)) and rng.integers(0, 2) else X
         try:
             det = MovingWindow(change_score=mk(), bandwidth=b, threshold_scale=None if tuned else float(rng.choice([0.3, 1.0, 2.0])),
-                               level=level, min_detection_interval=mdi).fit(Xin)
+                               level=level, min_detection_interval=mdi)
+            if rng.integers(0, 2):
+                # the same detector object has already been used on OTHER data: what it reports for X must not depend on it
+                X0 = lattice_data(np.random.default_rng(seed * 1000 + i), n + 3, p, kind=2) + rng.integers(-2, 3, size=(n + 3, p)) / 8.0
+                try:
+                    det.fit(X0).predict(X0)
+                except RuntimeError:
+                    pass
+            det.fit(Xin)
             sc = det.transform_scores(Xin).to_numpy().ravel()
             cps = [int(c) for c in det.predict(Xin)["ilocs"].to_numpy()]
             rsc = MovingWindow(change_score=mk(), bandwidth=b, threshold_scale=1.0).fit(X[::-1].copy()) \
